@@ -3,6 +3,7 @@
 TIER=${1:-quick}; SEED=${2:-1}
 cd /verif
 ids=$(python3 -c "import json; print(' '.join(c['property_id'] for c in json.load(open('MANIFEST.json'))['checks']))")
+[ -n "${IDS:-}" ] && ids=$IDS   # optional subset, e.g. IDS="C01 C02" tools/run_all.sh thorough 1
 rc=0
 for id in $ids; do
   s=$(date +%s)
